@@ -186,7 +186,7 @@ def replay_structure(m, V, sos, N, keys):
     return None
 
 
-def descent_p_vc(unigram=False):
+def descent_p_vc(unigram=False, vector_idx=False):
     """P rung: `_lookup_calc_idx_log_probs` for a SYMBOLIC order N >= 2, batch size, vocabulary, history length, history index, start
     symbol (inside / outside the vocabulary) and ANY flat trie that is well-formed, proved with a loop invariant over the descent.
 
@@ -201,6 +201,10 @@ def descent_p_vc(unigram=False):
         context_node(0) = tok(1), context_listed(k) likewise with tok(k+1)                                   (the context tok(k+1)..tok(1))
         katz(0) = logp[w];  katz(k) = logp[ngram_node(k)] if listed and finite, else backoff(k) + katz(k-1),
         backoff(k) = logb[context_node(k-1)] if context_listed(k-1) else 0.
+    `vector_idx`: the history index is a VECTOR (one index per batch element - what the CTC prefix search passes); the code then cuts the
+    context window of every element out of the padded history with masked_select + view; the compaction counters (C09) show the
+    window of element q is rows hidx[q] - (N-1) .. hidx[q] - 1, by induction over the frames of one element and over the elements
+    (count before element q = q (N-1)).
     Postcondition: out[q, w] = katz(N-1, q, w)  (as -inf-or-real).   That the buffers built by `_build_trie` are well-formed and
     that their view is the table is the bounded driver's run-time contract (contracts/C06_rt.py::trie_view_check)."""
     import pydrobert.torch._lm as LM
@@ -221,7 +225,10 @@ def descent_p_vc(unigram=False):
     P = O + G
     M_ = B * V
     mp = lambda t: z3.If(z3.And(SH == 1, t == SOS), V, t)
-    TOK = lambda k, q: mp(z3.If(HIDX - k >= 0, HIST(HIDX - k, q), SOS))
+    HIDXV = fn("hidx_of", Iz, Iz)
+    HX = (lambda q: HIDXV(q)) if vector_idx else (lambda q: HIDX)
+    TOK = lambda k, q: mp(z3.If(HX(q) - k >= 0, HIST(HX(q) - k, q), SOS))
+    HXOK = lambda q: z3.Implies(z3.And(0 <= q, q < B), z3.And(0 <= HX(q), HX(q) <= T))
     cs = lambda d: OFF(d) + d
     ce = lambda d: OFF(d + 1) + d + 1
     inner = lambda d: z3.And(1 <= LEVEL(d), LEVEL(d) <= N - 1)
@@ -269,7 +276,7 @@ def descent_p_vc(unigram=False):
         I.stubs.update(stn.stubs())
         state["cur"] = None
         hist = stn.ST((T, B), lambda t, b: HIST(z(t), z(b)), "long")
-        hidx = stn.ST((), lambda: HIDX, "long")
+        hidx = stn.ST((B,), lambda b: HIDXV(z(b)), "long") if vector_idx else stn.ST((), lambda: HIDX, "long")
         offsets = stn.ST((O,), lambda d: OFF(z(d)), "long")
         ids = stn.ST((O + G - U,), lambda p: IDS(z(p)), "long")
         logps = stn.ST((P,), lambda p: ct.NegGuarded(LPF(z(p)), LPV(z(p))), "float")
@@ -280,10 +287,10 @@ def descent_p_vc(unigram=False):
             once the match test and the match sum exist - their contracts, the lemma about the sum and the definitions they meet)"""
             cur = state["cur"]
             if cur is None:
-                return [TOKOK(HIDX - 1, x), AX_U(mp(HIST(HIDX - 1, x))), AX_U(mp(SOS)), AX_A(mp(HIST(HIDX - 1, x))), AX_A(mp(SOS))]
+                return [TOKOK(HX(x) - 1, x), AX_U(mp(HIST(HX(x) - 1, x))), AX_U(mp(SOS)), AX_A(mp(HIST(HX(x) - 1, x))), AX_A(mp(SOS)), HXOK(x)] + state.get("window", lambda q: [])(x) + (state["window_row"](z3.IntVal(1), x) if "window_row" in state else [])
             st, k = cur["st"], cur["k"]
             d = z(st["desc"].elem(x))
-            out = [inv_at(st, k, x), AX_A(d)]
+            out = [inv_at(st, k, x), AX_A(d), HXOK(x / V)] + [mn["lb"](x / V) for mn in I.ex.ghost.get("mins_all", [])]
             if cur.get("lemma") is not None:
                 an, t = cur["any"], z(cur["frame"].locals["hist_n"].elem(x))
                 wx = an["W"](x)
@@ -316,12 +323,49 @@ def descent_p_vc(unigram=False):
             I.ex.assume(z3.ForAll([x_, j_], lemma(x_, j_)))  # conclusion of the induction over the slot index, for every position
             cur["lemma"] = lemma
 
+        def select_hook(rec, sel):
+            """per-element index: the masked_select that cuts the context windows out of the padded history"""
+            mins = I.ex.ghost.get("mins_all", [])
+            if not vector_idx or rec["rank_"] != 2 or len(mins) != 1 or "window" in state:
+                raise ip.Unsupported("a masked_select the contract does not know (the context windows of a per-element history index)")
+            MINH = mins[0]["min"]
+            REM = z3.If(N - 1 - MINH > 0, N - 1 - MINH, 0)
+            lo = lambda q: HX(q) + REM - (N - 1)
+            hi = lambda q: HX(q) + REM
+            TT = rec["dims"][1]
+            Q1, T1 = I.ex.fresh("int", "q_lemma"), I.ex.fresh("int", "t_lemma")
+            qa, ta = z3.Ints("q_w t_w")
+            clamp = lambda v, a, b: z3.If(v < a, a, z3.If(v > b, b, v))
+            for y in (mins[0]["lb"](Q1), mins[0]["lb"](Q0), HXOK(Q1), HXOK(Q0)):
+                I.ex.instance(y)
+            I.ex.oblige("structure.window.extents", z3.And(rec["dims"][0] == B, TT == T + REM))
+            I.ex.oblige("window.inside_the_padded_history", z3.Implies(z3.And(0 <= Q1, Q1 < B), z3.And(0 <= lo(Q1), hi(Q1) <= TT)))
+            mm = lambda q, t: z3.Implies(z3.And(0 <= q, q < B, 0 <= t, t < TT), rec["mask"]([q, t]) == z3.And(lo(q) <= t, t < hi(q)))
+            I.ex.oblige("window.mask_is_the_last_rows_before_the_index", mm(Q1, T1))
+            I.ex.assume(z3.ForAll([qa, ta], mm(qa, ta)))
+            c0, c1 = rec["CNT"]
+            fr = lambda q, t: z3.Implies(z3.And(0 <= q, q < B, 0 <= t, t <= TT), c1(q, t) == clamp(t - lo(q), 0, N - 1))
+            for y in (rec["base"](1, [Q1]), rec["step"](1, [Q1], T1), mm(Q1, T1)):
+                I.ex.instance(y)
+            I.ex.oblige("window.frames.base", fr(Q1, z3.IntVal(0)))
+            I.ex.oblige("window.frames.step", z3.Implies(z3.And(0 <= T1, T1 < TT, fr(Q1, T1)), fr(Q1, T1 + 1)))
+            I.ex.assume(z3.ForAll([qa, ta], fr(qa, ta)))
+            el = lambda q: z3.Implies(z3.And(0 <= q, q <= B), c0(q) == q * (N - 1))
+            for y in (rec["base"](0, []), rec["step"](0, [], Q1), fr(Q1, TT)):
+                I.ex.instance(y)
+            I.ex.oblige("window.elements.base", el(z3.IntVal(0)))
+            I.ex.oblige("window.elements.step", z3.Implies(z3.And(0 <= Q1, Q1 < B, el(Q1)), el(Q1 + 1)))
+            I.ex.assume(z3.ForAll([qa], el(qa)))
+            I.ex.instance(el(B))  # the view(B, N - 1) that follows needs the total
+            state["window"] = lambda q: [el(q), HXOK(q), mins[0]["lb"](q)]
+            state["window_row"] = lambda r, q: [el(q), fr(q, lo(q) + N - 1 - r), mm(q, lo(q) + N - 1 - r), rec["inj"]([q, lo(q) + N - 1 - r]), HXOK(q), mins[0]["lb"](q), TOKOK(HX(q) - r, q)]
+
         class Descent(LoopSpec):
             def run(self, I2, s, f):
                 names = ("desc", "found", "last_logps", "last_backoffs")
                 hist_l = ip.local(f, "hist")
                 row_at = lambda r, q: z3.Implies(z3.And(1 <= r, r <= N - 1, 0 <= q, q < B), z(hist_l.elem(N - 1 - r, q)) == TOK(r, q))
-                for x in (TOKOK(HIDX - R0, Q0),):
+                for x in [TOKOK(HX(Q0) - R0, Q0), HXOK(Q0)] + (state["window_row"](R0, Q0) if "window_row" in state else []) + [mn["lb"](Q0) for mn in I.ex.ghost.get("mins_all", [])]:
                     I.ex.instance(x)
                 I.ex.oblige("descent.context.rows_are_the_last_tokens", z3.And(z3.BoolVal(len(hist_l.shape) == 2), z(hist_l.shape[0]) == N - 1, z(hist_l.shape[1]) == B, row_at(R0, Q0)))
                 I.ex.assume(z3.ForAll([r_, q_], row_at(r_, q_)))
@@ -330,7 +374,7 @@ def descent_p_vc(unigram=False):
                 st0 = {nm: ip.local(f, nm) for nm in names}
                 qn, wn, qp = X0 / V, X0 % V, X0 - M_
                 for x in [BASE_N(qn, wn), BASE_K(qn, wn), BASE_P(qn), BASE_P(qp), AX_U(wn), row_at(z3.IntVal(1), qn), row_at(z3.IntVal(1), qp),
-                          TOKOK(HIDX - 1, qn), TOKOK(HIDX - 1, qp), AX_U(TOK(1, qn)), AX_U(TOK(1, qp))]:
+                          TOKOK(HX(qn) - 1, qn), TOKOK(HX(qp) - 1, qp), AX_U(TOK(1, qn)), AX_U(TOK(1, qp)), HXOK(qn), HXOK(qp)]:
                     I.ex.instance(x)
                 for lbl, g in inv_at(st0, z3.IntVal(0), X0, parts=True):
                     I.ex.oblige("descent.init." + lbl, g)
@@ -367,6 +411,9 @@ def descent_p_vc(unigram=False):
         I.loops[("_lookup_calc_idx_log_probs", 0)] = Descent("descent", None, None, None, {})
         I.ex.ghost["skolem_hooks"] = [hook]
         I.ex.ghost["sum_hooks"] = [sum_hook]
+        I.ex.ghost["select_hooks"] = [select_hook]
+        state.pop("window", None)
+        state.pop("window_row", None)
         out = I.call(LM._lookup_calc_idx_log_probs, [hist, hidx, offsets, ids, logps, logbs, SOS, V, N, G, S], {})
         if unigram:
             I.ex.instance(BASE_K(X0 / V, X0 % V))
@@ -399,21 +446,21 @@ def descent_p_vc(unigram=False):
           z3.ForAll([d_, t_, p_], DEF_I(d_, t_, p_)), z3.ForAll([d_, t_], DEF_II(d_, t_)), z3.ForAll([t_, b_], TOKOK(t_, b_))]
     spec = [z3.ForAll([q_, w_], BASE_N(q_, w_)), z3.ForAll([k_, q_, w_], REC_N(k_, q_, w_)), z3.ForAll([q_], BASE_P(q_)), z3.ForAll([k_, q_], REC_P(k_, q_)),
             z3.ForAll([q_, w_], BASE_K(q_, w_)), z3.ForAll([k_, q_, w_], REC_K(k_, q_, w_))]
-    pre = [B >= 1, V >= 1, T >= 0, 0 <= HIDX, HIDX <= T, O >= U, G >= 1, S >= 0, S <= V + SH, 1 <= R0, 0 <= Q0, Q0 < B] + ([] if unigram else [N >= 2, R0 <= N - 1]) + wf + spec
+    pre = [B >= (2 if vector_idx else 1), V >= 1, T >= 0, 0 <= HIDX, HIDX <= T, z3.ForAll([q_], HXOK(q_)), O >= U, G >= 1, S >= 0, S <= V + SH, 1 <= R0, 0 <= Q0, Q0 < B] + ([] if unigram else [N >= 2, R0 <= N - 1]) + wf + spec
     # (b V + w) div V = b and (b V + w) mod V = w: ties the flat index of the loop to the matrix index of the result (nonlinear, raw)
     bb, ww, vv = z3.Ints("b_l w_l v_l")
     lemmas = [("row_major_index_splits_back", [vv >= 1, 0 <= ww, ww < vv, bb >= 0], z3.And((bb * vv + ww) / vv == bb, (bb * vv + ww) % vv == ww), "raw")]
-    return VC("C06.P.descent_is_katz_on_the_view", "_lookup_calc_idx_log_probs[%s; symbolic batch, vocabulary, history, start symbol, trie]" % ("N = 1" if unigram else "symbolic N >= 2"), M, "_lookup_calc_idx_log_probs", thunk,
+    return VC("C06.P.descent_is_katz_on_the_view", "_lookup_calc_idx_log_probs[%s%s; symbolic batch, vocabulary, history, start symbol, trie]" % ("N = 1" if unigram else "symbolic N >= 2", "; per-element history index" if vector_idx else ""), M, "_lookup_calc_idx_log_probs", thunk,
               pre=pre, posts=[("katz_recursion_on_the_trie_view", post)], lemmas=lemmas, inputs={"B": B, "V": V, "T": T, "O": O, "G": G, "S": S, "sos": SOS, "hidx": HIDX}, timeout_ms=60000, max_paths=64,
-              witness_hints=[B == 1, V == 2, S == 2, X0 == 1] + ([] if unigram else [N == 3]),
+              witness_hints=[B == (2 if vector_idx else 1), V == 2, S == 2, X0 == 1] + ([] if unigram else [N == 3]),
               assumptions=["well-formed flat trie (level function, child ranges inside the buffers, at most S slots per node, sibling tokens pairwise different) and history tokens inside the vocabulary or the start symbol: preconditions; that `_build_trie` establishes them and that the view equals the table: run-time contract of the bounded driver",
                            "has_child / child, the listed / node / katz functions: definitions by choice resp. by recursion on the context length (conservative)",
                            "any over a symbolic extent = exists (with a witness function), sum = partial sums: assumed contracts; tensors as index functions (vf/pyvc/symtensor.py); the lemma `a sum with one unmasked slot is that slot` is proved by induction over the slot index inside the iteration",
-                           "scalar history index (the per-element index path with masked_select is the bounded driver's); float arithmetic treated as real arithmetic; -inf as a flag"])
+                           "scalar history index, or one index per batch element for batches of at least two (a one-element index vector takes the scalar route and is covered by the S rung and the bounded driver); float arithmetic treated as real arithmetic; -inf as a flag"])
 
 
 def p_vcs(ctx):
-    return [descent_p_vc(True), descent_p_vc(False)]
+    return [descent_p_vc(True), descent_p_vc(False), descent_p_vc(False, vector_idx=True)]
 
 
 def structures(quick):
